@@ -3,6 +3,7 @@ import ScyllaVerif.Model.FrameHdr
 import ScyllaVerif.Model.C08Value
 import ScyllaVerif.Model.C08Tablet
 import ScyllaVerif.Model.C08SchemaType
+import ScyllaVerif.Model.C08Features
 import ScyllaVerif.Drive.C01
 /-! Line-protocol driver for C08.
 
@@ -456,6 +457,18 @@ def runSchemaType (bs : Bytes) (uni : List (Bytes × UCls)) : String :=
     s!"{(line.take 200).toString}… len={line.utf8ByteSize} h={hex64 (fnv64 line)}"
   else line
 
+/-- `s <SUPPORTED body hex|->`: the option map, then the negotiated features -/
+def runSupported (bs : Bytes) : String :=
+  match readStringMultimap { buf := bs } with
+  | (.ok opts, _) =>
+    match ScyllaVerif.C08F.parseFromSupported opts with
+    | .panic site => "MODEL-PANIC " ++ site
+    | .ok f =>
+      let o := fun (x : Option String) => x.getD "-"
+      s!"feat rl={o (f.rateLimit.map toString)} lwt={o (f.lwtMask.map toString)} tab={if f.tablets then 1 else 0} mid={if f.metadataId then 1 else 0}"
+  | (.err _, _) => "supported err"
+  | (.panic k, _) => "MODEL-PANIC " ++ k
+
 def run (case impl : String) : String :=
   match words case with
   | "f" :: rest => runFrame rest impl
@@ -470,6 +483,10 @@ def run (case impl : String) : String :=
   | ["p", name, hex] =>
     match parseHex hex with
     | some bs => runPrim name bs
+    | none => "bad-case"
+  | ["s", hex] =>
+    match (if hex == "-" then some [] else parseHex hex) with
+    | some bs => runSupported bs
     | none => "bad-case"
   | ["t", hex, u] =>
     match (if hex == "-" then some [] else parseHex hex), parseUni u with
